@@ -3,14 +3,17 @@
 CLAIMS = [
     {
         "id": "C11",
-        "technique": "static analysis: MIR path rule (token stream ends only at lexer exhaustion) + HIR front-door rules",
+        "technique": "static analysis: MIR path rules (token stream ends only at lexer exhaustion and only at comment depth 0) + HIR front-door rules + skip-pattern inventory of the logos token definition",
         "level_text": "Decides from the MIR of <Lexer as Iterator>::next and LexicalTokens::next that None is returned only on the "
                       "None edge of the underlying logos iterator (every other path to a None result is reported with the token "
-                      "variant chain that reaches it), that the lexer constructors lex their whole argument from comment depth 0, and "
-                      "that every non-test caller of a generated *Parser::parse lexes exactly the text it parses. This is the "
-                      "structural content of 'no silent truncation'; it holds for all inputs because it is a property of every path.",
-        "level_note": "Trusted: LALRPOP parsers accept only at end of stream; logos turns every input byte into a token, a skip or an "
-                      "Err item. Text inside an unterminated `/-` comment counts as comment (lexer definition).",
+                      "variant chain that reaches it) and, for the parser's lexer, only where `comment_depth > 0` is false (end of input "
+                      "inside a block comment is handed to the grammar as a token); that the lexer constructors lex their whole argument "
+                      "from comment depth 0; that every non-test caller of a generated *Parser::parse lexes exactly the text it parses; "
+                      "and that the token definition skips white space only. This is the structural content of 'no silent truncation'; "
+                      "it holds for all inputs because it is a property of every path.",
+        "level_note": "Trusted: LALRPOP parsers accept only at end of stream; logos turns every input byte that no skip pattern matches "
+                      "into a token or an Err item. F1 and F20 (both repaired) were found by / led to these rules. Text inside a "
+                      "well-terminated block comment is comment by definition, whatever it contains.",
     },
     {
         "id": "C16",
